@@ -470,6 +470,81 @@ Section Oracle.
   Proof. intros H. exact H. Qed.
 End Oracle.
 
+(* ------------------------------------------------------------------ *)
+(* bridges: mission distance <-> track length; reported azimuths        *)
+(* ------------------------------------------------------------------ *)
+
+Section Bridge.
+  (* points are (longitude, latitude) pairs; [inv] is pyproj's inverse problem on points, [inv4] the same call with
+     the four coordinates spelled out as Mission.gc_distance does *)
+  Variable inv : (R * R) -> (R * R) -> R * R.
+  Variable inv4 : R -> R -> R -> R -> R.
+  Hypothesis same_call : forall a b : R * R, inv4 (fst a) (snd a) (fst b) (snd b) = snd (inv a b).
+
+  (* the mission distance (pyproj order) IS the total length of the great-circle ground track between the airports *)
+  Lemma mission_distance_is_ground_track_total (olon olat dlon dlat : R) al :
+    evald inv4 (@gc_distance RNum false olon olat dlon dlat)
+    = totalR (track_of (R * R) inv [(olon, olat); (dlon, dlat)] al).
+  Proof. rewrite great_circle_total. simpl. apply (same_call (olon, olat) (dlon, dlat)). Qed.
+
+  (* symmetry of the mission distance is exactly the symmetry of the geodesic distance (an oracle law of pyproj) *)
+  Lemma mission_distance_symmetric_from_geodesic (olon olat dlon dlat : R) :
+    (forall p q, snd (inv p q) = snd (inv q p)) ->
+    evald inv4 (@gc_distance RNum false olon olat dlon dlat) = evald inv4 (@gc_distance RNum false dlon dlat olon olat).
+  Proof.
+    intros Hs. simpl.
+    generalize (same_call (olon, olat) (dlon, dlat)), (same_call (dlon, dlat) (olon, olat)). simpl.
+    intros -> ->. apply Hs.
+  Qed.
+End Bridge.
+
+Section Azimuths.
+  Variable P : Type.
+  Variable inv : P -> P -> R * R.
+  Variable fwd : P -> R -> R -> P.
+  Variable dflt : P.
+
+  (* the raw (pyproj) value behind an azimuth expression of the model *)
+  Definition evala (wps : list P) (al : bool) (a : aexp RNum) : R :=
+    match a with
+    | ALeg i => @leg_az RNum (track_of P inv wps al) i
+    | AInvFrom p j => fst (inv (evalp P fwd dflt wps p) (nth j wps dflt))
+    | AInvTo j p => fst (inv (nth j wps dflt) (evalp P fwd dflt wps p))
+    end.
+
+  (* what GroundTrack.Point reports *)
+  Definition reported_azimuth (wps : list P) (al : bool) (a : aexp RNum) : R := @norm360 RNum (evala wps al a).
+
+  Lemma legs_of_az_in wps x : In x (map fst (legs_of P inv wps)) -> exists a b, x = fst (inv a b).
+  Proof.
+    induction wps as [|a r IH]; [intros []|]. destruct r as [|b r']; [intros []|].
+    change (legs_of P inv (a :: b :: r')) with (inv a b :: legs_of P inv (b :: r')). simpl map.
+    intros [<-|H]; [eauto|apply IH; exact H].
+  Qed.
+
+  (* every azimuth expression evaluates to a forward azimuth of some inverse problem (or to the default 0 for a
+     leg that does not exist) *)
+  Lemma evala_is_oracle_value wps al a : evala wps al a = 0 \/ exists p q, evala wps al a = fst (inv p q).
+  Proof.
+    destruct a as [i|p j|j p]; simpl; [|right; eauto|right; eauto].
+    unfold leg_az, track_of. simpl legs.
+    destruct (nth_in_or_default i (map fst (legs_of P inv wps)) (@zero RNum)) as [H|H].
+    - right. apply legs_of_az_in in H. exact H.
+    - left. exact H.
+  Qed.
+
+  (* with pyproj's azimuth range as a hypothesis, every azimuth a ground track reports is in [0, 360) and is
+     congruent to the oracle's value *)
+  Lemma reported_azimuth_range wps al a :
+    (forall p q, -360 <= fst (inv p q) < 360) ->
+    0 <= reported_azimuth wps al a < 360 /\
+    (reported_azimuth wps al a = evala wps al a \/ reported_azimuth wps al a = evala wps al a + 360).
+  Proof.
+    intros Hr. unfold reported_azimuth. split; [|apply norm360_congruent].
+    apply norm360_range. destruct (evala_is_oracle_value wps al a) as [->|(p & q & ->)]; [lra|apply Hr].
+  Qed.
+End Azimuths.
+
 (* a concrete oracle separating the two argument orders exists (any metric that is not invariant under
    exchanging the two coordinates; here a weighted taxicab distance), so the exchanged form is refuted *)
 Definition toy_inv4 (x1 y1 x2 y2 : R) : R := Rabs (x1 - x2) + 2 * Rabs (y1 - y2).
